@@ -243,4 +243,194 @@ theorem opposite_forever (es : List Ev) : ∀ s s', s.idsNodup → s.opposite = 
       exact ih s1 s' (idsNodup_step s s1 e hnd hs1) (opposite_stable s s1 e hnd ho hs1) hr
     · simp at hr
 
+/-! ### completion: all calls in flight return -/
+
+/-- work left: an unbegun call has to begin and to finish, a begun one to finish -/
+def St.mu (s : St) : Nat := (s.calls.map (fun c => if c.begun then 1 else 2)).sum
+
+theorem sum_map_le {α} (f g : α → Nat) : ∀ (l : List α), (∀ x ∈ l, f x ≤ g x) → (l.map f).sum ≤ (l.map g).sum := by
+  intro l
+  induction l with
+  | nil => intro _; simp
+  | cons a l ih =>
+    intro h
+    simp only [List.map_cons, List.sum_cons]
+    have h1 := h a (List.mem_cons_self ..)
+    have h2 := ih (fun x hx => h x (List.mem_cons_of_mem _ hx))
+    omega
+
+theorem sum_map_lt {α} (f g : α → Nat) : ∀ (l : List α), (∀ x ∈ l, f x ≤ g x) → (∃ x ∈ l, f x < g x) →
+    (l.map f).sum < (l.map g).sum := by
+  intro l
+  induction l with
+  | nil => intro _ ⟨x, hx, _⟩; cases hx
+  | cons a l ih =>
+    intro h ⟨x, hx, hlt⟩
+    simp only [List.map_cons, List.sum_cons]
+    have h1 := h a (List.mem_cons_self ..)
+    have h2 := sum_map_le f g l (fun y hy => h y (List.mem_cons_of_mem _ hy))
+    rcases List.mem_cons.mp hx with rfl | hx'
+    · omega
+    · have := ih (fun y hy => h y (List.mem_cons_of_mem _ hy)) ⟨x, hx', hlt⟩
+      omega
+
+theorem sum_filter_lt (f : Call → Nat) (p : Call → Bool) : ∀ (l : List Call), (∃ x ∈ l, p x = false ∧ 0 < f x) →
+    ((l.filter p).map f).sum < (l.map f).sum := by
+  intro l
+  induction l with
+  | nil => intro ⟨x, hx, _⟩; cases hx
+  | cons a l ih =>
+    intro ⟨x, hx, hp, hf⟩
+    have hle : ∀ (l : List Call), ((l.filter p).map f).sum ≤ (l.map f).sum := by
+      intro l; induction l with
+      | nil => simp
+      | cons b l ihl => by_cases hb : p b <;> simp [List.filter, hb] <;> omega
+    rcases List.mem_cons.mp hx with rfl | hx'
+    · simp only [List.filter, hp, List.map_cons, List.sum_cons]
+      have := hle l; omega
+    · have := ih ⟨x, hx', hp, hf⟩
+      by_cases ha : p a <;> simp [List.filter, ha] <;> omega
+
+/-- begin and finish use up work -/
+theorem mu_decreases (s s' : St) (id : Nat) (h : step s (.begin id) = some s' ∨ step s (.finish id) = some s') :
+    s'.mu < s.mu := by
+  rcases h with h | h
+  · simp only [step] at h
+    cases hf : s.calls.find? (fun c => c.id == id) with
+    | none => rw [hf] at h; cases h
+    | some c =>
+      rw [hf] at h
+      simp only at h
+      split at h
+      · rename_i hc
+        cases h
+        obtain ⟨hm, hid⟩ := find_some _ _ _ hf
+        unfold St.mu
+        simp only [List.map_map]
+        apply sum_map_lt
+        · intro x _
+          simp only [Function.comp]
+          by_cases hx : (x.id == id) = true <;> simp [hx] <;> split <;> omega
+        · refine ⟨c, hm, ?_⟩
+          simp [Function.comp, hid, hc.1]
+      · cases h
+  · simp only [step] at h
+    cases hf : s.calls.find? (fun c => c.id == id) with
+    | none => rw [hf] at h; cases h
+    | some c =>
+      rw [hf] at h
+      simp only at h
+      split at h
+      · cases h
+        obtain ⟨hm, hid⟩ := find_some _ _ _ hf
+        unfold St.mu
+        apply sum_filter_lt
+        refine ⟨c, hm, by simp [hid], ?_⟩
+        split <;> omega
+      · cases h
+
+/-- begin and finish never make the two coroutine threads wait for each other -/
+theorem opposite_not_created (s s' : St) (id : Nat) (h : step s (.begin id) = some s' ∨ step s (.finish id) = some s')
+    (ho : s.opposite = false) : s'.opposite = false := by
+  apply Classical.byContradiction
+  intro hn
+  have ho' : s'.opposite = true := by simpa using hn
+  have : s.opposite = true := by
+    rw [opposite_iff] at ho' ⊢
+    rcases h with h | h
+    · simp only [step] at h
+      cases hf : s.calls.find? (fun c => c.id == id) with
+      | none => rw [hf] at h; cases h
+      | some c =>
+        rw [hf] at h; simp only at h
+        split at h
+        · cases h
+          have back : ∀ (a b : Nat), (∃ c ∈ s.calls.map (fun d => if d.id == id then { d with begun := true } else d),
+              c.caller = a ∧ c.target = b ∧ c.begun = false) → ∃ c ∈ s.calls, c.caller = a ∧ c.target = b ∧ c.begun = false := by
+            rintro a b ⟨c', hc', h1, h2, h3⟩
+            obtain ⟨d, hd, rfl⟩ := List.mem_map.mp hc'
+            by_cases hx : (d.id == id) = true
+            · simp [hx] at h3
+            · simp only [hx] at h1 h2 h3
+              exact ⟨d, hd, by simpa using h1, by simpa using h2, by simpa using h3⟩
+          exact ⟨back 0 1 ho'.1, back 1 0 ho'.2⟩
+        · cases h
+    · simp only [step] at h
+      cases hf : s.calls.find? (fun c => c.id == id) with
+      | none => rw [hf] at h; cases h
+      | some c =>
+        rw [hf] at h; simp only at h
+        split at h
+        · cases h
+          obtain ⟨⟨c1, h1, r1⟩, ⟨c2, h2, r2⟩⟩ := ho'
+          exact ⟨⟨c1, (List.mem_filter.mp h1).1, r1⟩, ⟨c2, (List.mem_filter.mp h2).1, r2⟩⟩
+        · cases h
+  rw [this] at ho; cases ho
+
+theorem wellTargeted_step (s s' : St) (id : Nat) (h : step s (.begin id) = some s' ∨ step s (.finish id) = some s')
+    (hw : s.wellTargeted = true) : s'.wellTargeted = true := by
+  unfold St.wellTargeted at hw ⊢
+  rw [List.all_eq_true] at hw ⊢
+  rcases h with h | h
+  · simp only [step] at h
+    cases hf : s.calls.find? (fun c => c.id == id) with
+    | none => rw [hf] at h; cases h
+    | some c =>
+      rw [hf] at h; simp only at h
+      split at h
+      · cases h
+        intro x hx
+        obtain ⟨d, hd, rfl⟩ := List.mem_map.mp hx
+        have := hw d hd
+        by_cases hxx : (d.id == id) = true <;> simpa [hxx] using this
+      · cases h
+  · simp only [step] at h
+    cases hf : s.calls.find? (fun c => c.id == id) with
+    | none => rw [hf] at h; cases h
+    | some c =>
+      rw [hf] at h; simp only at h
+      split at h
+      · cases h
+        intro x hx
+        exact hw x (List.mem_filter.mp hx).1
+      · cases h
+
+/-- **every execute call returns**, unless the two coroutine threads wait for each other: from any
+state without that deadlock the calls in flight can all be completed (each payload starts on its
+target thread and hands its outcome to the caller), by a sequence of `begin` / `finish` events -/
+theorem drain : ∀ (n : Nat) (s : St), s.mu ≤ n → s.idsNodup → s.wellTargeted = true → s.opposite = false →
+    ∃ es s', run s es = some s' ∧ s'.calls = [] ∧ (∀ e ∈ es, ∃ id, e = .begin id ∨ e = .finish id) := by
+  intro n
+  induction n with
+  | zero =>
+    intro s hmu _ _ _
+    refine ⟨[], s, rfl, ?_, by simp⟩
+    cases hc : s.calls with
+    | nil => rfl
+    | cons c l =>
+      unfold St.mu at hmu; rw [hc] at hmu
+      simp only [List.map_cons, List.sum_cons] at hmu
+      split at hmu <;> omega
+  | succ n ih =>
+    intro s hmu hnd hw hop
+    by_cases hne : s.calls = []
+    · exact ⟨[], s, rfl, hne, by simp⟩
+    · obtain ⟨id, s1, h1⟩ := canProgress_enabled s hnd (progress_unless_opposite s hw hne hop)
+      have hdec := mu_decreases s s1 id h1
+      rcases h1 with hb | hf
+      · have hnd1 := idsNodup_step s s1 _ hnd hb
+        obtain ⟨es, s2, hr, hc, hall⟩ := ih s1 (by omega) hnd1 (wellTargeted_step s s1 id (.inl hb) hw) (opposite_not_created s s1 id (.inl hb) hop)
+        refine ⟨.begin id :: es, s2, by simp [run, hb, hr], hc, ?_⟩
+        intro e he
+        rcases List.mem_cons.mp he with rfl | he
+        · exact ⟨id, .inl rfl⟩
+        · exact hall e he
+      · have hnd1 := idsNodup_step s s1 _ hnd hf
+        obtain ⟨es, s2, hr, hc, hall⟩ := ih s1 (by omega) hnd1 (wellTargeted_step s s1 id (.inr hf) hw) (opposite_not_created s s1 id (.inr hf) hop)
+        refine ⟨.finish id :: es, s2, by simp [run, hf, hr], hc, ?_⟩
+        intro e he
+        rcases List.mem_cons.mp he with rfl | he
+        · exact ⟨id, .inr rfl⟩
+        · exact hall e he
+
 end Cobald.Exec
